@@ -375,6 +375,7 @@ type Clause struct {
 	Expr  SExpr
 	Loop  int // for invariant/decreases
 	Cand  bool // inferred candidate (Houdini)
+	Site  string // for "at call": callee#ordinal
 	File  string
 	Line  int
 }
@@ -426,6 +427,8 @@ type FuncContract struct {
 	Recovers string
 	Panics   []string // allowed explicit panic types
 	Measure  *Clause  // recursion measure
+	AtCalls  []*Clause // assertions after the k-th call of a callee: Tag2 = "callee#k"
+	Assumes  []*Clause // loop-head assumptions (listed in evidence, not proved)
 	Extra    map[string][]string
 	File     string
 	Line     int
@@ -442,7 +445,7 @@ type ContractSet struct {
 var clauseKeywords = map[string]bool{
 	"spec": true, "rec": true, "axiom": true, "lemma": true, "func": true, "props": true,
 	"requires": true, "ensures": true, "loop": true, "assigns": true, "pure": true, "sweep": true,
-	"trusted": true, "end": true, "recovers": true, "panics": true, "measure": true, "use": true, "opt": true,
+	"trusted": true, "end": true, "at": true, "recovers": true, "panics": true, "measure": true, "use": true, "opt": true,
 }
 
 func parseParams(s string) ([]SpecParam, error) {
@@ -636,6 +639,23 @@ func (cs *ContractSet) ParseContractText(pkgPath, file, text string) error {
 				case "measure":
 					cur.Measure = cl
 				}
+			case "at":
+				// at call CALLEE#k assert [tags] expr
+				fs := strings.Fields(rc.rest)
+				if len(fs) < 4 || fs[0] != "call" {
+					return errf(fmt.Errorf("bad at clause (want: at call NAME#k assert expr)"))
+				}
+				site := fs[1]
+				i := strings.Index(rc.rest, "assert")
+				if i < 0 {
+					return errf(fmt.Errorf("at clause without assert"))
+				}
+				tag, props, body := parseTags(rc.rest[i+len("assert"):])
+				e, err := ParseSpecExpr(body)
+				if err != nil {
+					return errf(err)
+				}
+				cur.AtCalls = append(cur.AtCalls, &Clause{Kind: "assert", Tag: tag, Props: props, Src: body, Expr: e, Site: site, File: file, Line: rc.line})
 			case "loop":
 				// loop N invariant|decreases [tags] expr
 				fs := strings.Fields(rc.rest)
@@ -659,6 +679,8 @@ func (cs *ContractSet) ParseContractText(pkgPath, file, text string) error {
 					cur.Invs = append(cur.Invs, cl)
 				case "decreases":
 					cur.Decs = append(cur.Decs, cl)
+				case "assume":
+					cur.Assumes = append(cur.Assumes, cl)
 				default:
 					return errf(fmt.Errorf("bad loop clause kind %q", kind))
 				}
